@@ -100,11 +100,11 @@ class C16(Prop):
         "value_dispatch_spec", "svalue_dispatch_spec", "restore_dispatch_as_in_source",
         "nesting_and_dry_run_sites_as_modelled", "roundtrip_float_keys", "keys_distinct_with_float_keys",
         "restore_ignores_stale_state", "save_ignores_stale_state", "reset_sites_as_modelled",
-        "restore_into_another_program_version")]
+        "restore_into_another_program_version", "size_table_capacity_ok", "table_sites_as_modelled")]
     witness_theorems = ["NV.C16.Witness." + t for t in (
         "float_keys_collapse", "roundtripFloatKeys_Full_false", "cr_round_trips", "stray_byte_in_array_ok",
         "inf_is_written_as_number", "same_name_saved", "same_name_variables", "old_mask_loses_the_key",
-        "stale_counter_without_reset", "stale_table_gives_wrong_value", "stale_counter_refuses_save")]
+        "stale_counter_without_reset", "stale_table_gives_wrong_value", "stale_counter_refuses_save", "zero_capacity_with_a_table_never_ends")]
     consts = [("maxSaveSvalueDepth", "MAX_SAVE_SVALUE_DEPTH"), ("nameStatic", "NAME_STATIC"),
               ("saveExtLen", "sizeof(SAVE_EXTENSION) - 1"), ("saveExt0", "SAVE_EXTENSION[0]"), ("saveExt1", "SAVE_EXTENSION[1]"),
               ("fillPercent", "FILL_PERCENT"), ("maxTableSize", "MAX_TABLE_SIZE"), ("mapHashTableSize", "MAP_HASH_TABLE_SIZE")]
@@ -118,15 +118,19 @@ class C16(Prop):
                  "bytes and source-statement comparisons + model/implementation correspondence under ASan/UBSan + crash-point "
                  "and failure enumeration + lookup of every entry of every printed mapping")
     level_text = ("Lean 4 theorems about an executable model of save_svalue / svalue_save_size / restore_size / "
-                  "restore_internal_size (incl. its nesting limit) / restore_array / restore_class / restore_mapping (incl. the "
-                  "hash table: bucket choice, growMap in the middle of a restore, lookup) / restore_string / parse_numeric / "
-                  "restore_svalue / safe_restore_svalue and of the line format, the dry run and the call script of save_object / "
-                  "restore_object over the real program trees (lib/lpc/object.c, lib/lpc/mapping.c), for all values, ALL byte "
-                  "strings, all crash points (also inside a call), every hash function; floats and mblen are parameters with "
-                  "stated contracts; the model is tied to the source by regenerated constants / tables / statement comparisons "
-                  "with bridging lemmas and by running the real efuns and the model on the same generated values, truncated / "
-                  "mutated / endlessly nested texts and crash points (traces identical); the Lean oracle judges every "
-                  "implementation trace, incl. that every entry of a restored mapping is found through its key")
+                  "restore_internal_size (incl. its nesting limit and the size table with its capacity loops) / restore_array / "
+                  "restore_class / restore_mapping (incl. the hash table: bucket choice, growMap in the middle of a restore, "
+                  "lookup) / restore_string / parse_numeric / restore_svalue / safe_restore_svalue (incl. the file-scope state "
+                  "an LPC error leaves behind: every entry point proved independent of it) and of the line format, the dry run "
+                  "and the call script of save_object / restore_object over the real program trees, incl. restore into ANOTHER "
+                  "program version (any two variable tables), for all values, ALL byte strings, all crash points (also inside a "
+                  "call), every hash function; floats and mblen are parameters with stated contracts; the model is tied to the "
+                  "source by regenerated constants / tables / statement comparisons (comment- and layout-insensitive, each "
+                  "naming its site) / the nm inventory of file-scope variables, with bridging lemmas, and by running the real "
+                  "efuns and the model on the same generated values, truncated / mutated / endlessly nested texts, poisoned "
+                  "shared state, crash points, file-size limits inside stdio blocks and real rename failures (traces "
+                  "identical); the Lean oracle judges every implementation trace, incl. that every entry of a restored mapping "
+                  "is found through its key and that a restore into another program matches by name")
     level_note = ("trusted: Lean kernel; extract.py; the correspondence harness (differential: only generated cases; "
                   "stdio-level interposition, rename() atomic by assumption, a crash inside a call is a theorem only); FloatOps / "
                   "MbLen contracts are hypotheses (validated on generated floats / UTF-8 by the run); hash-table ORDER of a saved "
@@ -150,8 +154,8 @@ class C16(Prop):
                    "restore are not modelled (the hash-table theorems start from a power-of-two table)",
                    "hash-table layout of a SAVED mapping (the order of entries in the saved text) is abstracted to a list order; "
                    "traces are compared after sorting entries",
-                   "a crash inside a stdio call (partial write of a block) is covered by a theorem over the file-system model only; "
-                   "on the real driver failures / crashes are injected at stdio-call granularity",
+                   "inside a stdio block the real driver is observed under file-size limits (partial write then failure / kill), "
+                   "not at every byte; rename() is atomic by assumption",
                    "non-UTF-8 multibyte locales (MbLen.cont fails for Big5/GBK/Shift-JIS; the driver always selects UTF-8)",
                    "msameval() identifies a float key with the integer key of the same bit pattern (0.0 / 0): values "
                    "with such key pairs are not generated",
@@ -401,7 +405,23 @@ class C16(Prop):
                      % (", ".join('("%s", "%s", "%s")' % x for x in state),
                         ", ".join("%s=%s" % (k, "yes" if v else "NO") for k, v in reset_sites.items()),
                         "true" if all(reset_sites.values()) else "false"))
-        broken = [(g, k) for g, d in (("hash-table", hash_sites), ("nesting-limit", nest_sites), ("dry-run", dry_sites),
+        # the size table: allocation / growth in restore_internal_size (two copies), release in the two entry points
+        inits = re.findall(r"if \(!save_svalue_sizes\) \{ save_max_depth = (\d+); while \(save_max_depth <= depth\) save_max_depth <<= 1; "
+                           r"save_svalue_sizes = CALLOCATE \(save_max_depth, int,", ris)
+        table_sites = {
+            "allocation (both closing branches)": len(inits) == 2 and len(set(inits)) == 1,
+            "growth doubles before it tests (both)": ris.count("else if (depth >= save_max_depth) { while ((save_max_depth <<= 1) <= depth); "
+                                                               "save_svalue_sizes = RESIZE (save_svalue_sizes, save_max_depth, int,") == 2,
+            "entry written after the capacity is ensured (both)": ris.count("save_svalue_sizes[depth] = size; return 1;") == 2,
+            "release resets pointer and capacity together (both entry points)": objw.count(
+                "if (save_svalue_depth) { save_svalue_depth = save_max_depth = 0; if (save_svalue_sizes) FREE ((char *) save_svalue_sizes); "
+                "save_svalue_sizes = (int *) 0; }") == 2,
+        }
+        state_txt += ("\n/-- the size table: %s -/\ndef tableSitesAsModelled : Bool := %s\n"
+                      "/-- `save_max_depth = N` of a fresh table -/\ndef sizeTableInitial : Nat := %s"
+                      % (", ".join("%s=%s" % (k, "yes" if v else "NO") for k, v in table_sites.items()),
+                         "true" if all(table_sites.values()) else "false", inits[0] if inits else "0"))
+        broken = [(g, k) for g, d in (("size-table", table_sites), ("hash-table", hash_sites), ("nesting-limit", nest_sites), ("dry-run", dry_sites),
                                        ("counter-reset", reset_sites)) for k, v in d.items() if not v]
         if broken:
             raise X.TieBroken("site:%s/%s" % broken[0],
@@ -495,7 +515,10 @@ class C16(Prop):
             hc.append(E.Case(c.id, lines))
         # a case of this property runs for milliseconds (the largest boundary texts for < 1 s under ASan): a per-case limit of
         # 10 s instead of vh's 30 s keeps a tree that HANGS in many cases from eating the harness wall-clock limit
-        res = E.run_harness(self.exe, self.conf, hc, ctx.rundir, args=("--timeout", "10"))
+        # (and the whole batch gets 5 minutes in the quick tier - ten times what the unchanged tree needs under load -
+        # instead of 15: what did not run by then is reported as crashed, a verdict with a replay)
+        res = E.run_harness(self.exe, self.conf, hc, ctx.rundir, args=("--timeout", "10"),
+                            timeout=300 if getattr(ctx, "tier", "quick") == "quick" else 1800)
         for path in made:
             shutil.rmtree(path, ignore_errors=True)
         self.last_impl.update({k: self.canon(v) for k, v in res.items()})
